@@ -1,11 +1,15 @@
 package props
 
 import (
+	"encoding/json"
 	"fmt"
+	"math"
 	"sort"
 	"strconv"
 	"strings"
 	"sync"
+	"sync/atomic"
+	"time"
 
 	"verif/harness/kernel"
 )
@@ -221,4 +225,163 @@ func c08Reader(rep *kernel.Report, budget *kernel.Budget) {
 	}
 	d.Drive()
 	rep.Set("reader_lookup_sequences", len(jobs))
+}
+
+// C08 part V — two ingest calls for one series at once. The first datapoint of a series creates the series in the open
+// block; a second ingest of the same series that runs while the first is held at any of its lock operations must not
+// lose either datapoint (vsched: hold at every lock operation, the other call runs to completion).
+
+type c08VJob struct {
+	NewSeries bool  `json:"newSeries"` // the series does not exist in the block yet (else it already holds one datapoint)
+	PauseAt   int64 `json:"pauseAt"`
+}
+
+var c08VSeq int64
+
+func c08VRun(w *kernel.Worker, j *c08VJob, rep *kernel.Report) (*Fail, error) {
+	die := func(err error) (*Fail, error) {
+		if d, ok := err.(*kernel.Died); ok {
+			clause := "crash"
+			if d.Timeout {
+				clause = "deadlock-or-hang"
+			}
+			return &Fail{FP: "C08/" + clause + "/two-ingests/" + d.Frame, What: fmt.Sprintf("schedule %s: %s\n%s", jstr(j), d.Exit, trunc(d.Stderr, 2000))}, nil
+		}
+		return nil, err
+	}
+	name := fmt.Sprintf("c08v%d", atomic.AddInt64(&c08VSeq, 1))
+	dp := func(t int, v float64) string {
+		return fmt.Sprintf(`{"metric":%q,"tags":{"s":"x"},"timestamp":%d,"value":%s}`, name, MT0+uint32(t), fmtFloatJSON(v))
+	}
+	want := map[uint32]uint64{MT0 + 1: math.Float64bits(1.5), MT0 + 2: math.Float64bits(2.5)}
+	if !j.NewSeries {
+		if ok, raw, err := mPutLight(w, name, map[string]string{"s": "x"}, MT0, 0.5); err != nil || !ok {
+			if err != nil {
+				return die(err)
+			}
+			return &Fail{FP: "C08/harness-put", What: raw}, nil
+		}
+		want[MT0] = math.Float64bits(0.5)
+	}
+	var r schedRes
+	if err := w.CallT("schedrun", map[string]interface{}{"x": []schedStep{{Op: "mput", Event: dp(1, 1.5)}}, "y": []schedStep{{Op: "mput", Event: dp(2, 2.5)}}, "pauseAt": j.PauseAt}, &r, 90*time.Second); err != nil {
+		return die(err)
+	}
+	rep.Eval(1)
+	rep.Transition(2)
+	where := "—"
+	if r.Paused {
+		where = r.PausedAt
+		rep.Nontrivial(jstr(j))
+	}
+	for _, sr := range append(append([]schedStepRes{}, r.X...), r.Y...) {
+		if sr.Err != "" {
+			return &Fail{FP: "C08/two-ingests/rejected", What: fmt.Sprintf("schedule %s (held at %s): %s", jstr(j), where, sr.Err)}, nil
+		}
+	}
+	if err := w.Call("mrotate", map[string]interface{}{"kind": "block"}, nil); err != nil {
+		return die(err)
+	}
+	var dump map[string][]struct {
+		Tsid   uint64      `json:"tsid"`
+		Points [][2]uint64 `json:"points"`
+		Err    string      `json:"err"`
+	}
+	if err := w.Call("mdumpfiles", nil, &dump); err != nil {
+		return die(err)
+	}
+	// the series of this job: the one whose points are a subset of what was sent and that holds the value 1.5 or 2.5 at +1/+2
+	got := map[uint32]int{}
+	for _, list := range dump {
+		for _, sr := range list {
+			mine := len(sr.Points) > 0
+			for _, p := range sr.Points {
+				if b, ok := want[uint32(p[0])]; !ok || b != p[1] {
+					mine = false
+				}
+			}
+			_ = mine
+		}
+	}
+	// identify by a range query instead (series identity is the metric name, unique per job)
+	var qr httpRes
+	if err := w.Call("mqueryl", map[string]interface{}{"q": name, "start": MT0 - 5, "end": MT0 + 10, "org": 0}, &qr); err != nil {
+		return die(err)
+	}
+	var pr struct {
+		Data struct {
+			Result []struct {
+				Values [][]interface{} `json:"values"`
+			} `json:"result"`
+		} `json:"data"`
+	}
+	_ = json.Unmarshal([]byte(qr.Body), &pr)
+	for _, sr := range pr.Data.Result {
+		for _, v := range sr.Values {
+			if len(v) == 2 {
+				if f, ok := v[0].(float64); ok {
+					got[uint32(f)]++
+				}
+			}
+		}
+	}
+	site := where
+	if i := strings.LastIndex(site, ":"); i > 0 {
+		site = site[:i]
+	}
+	fs := &Fails{}
+	ctx := fmt.Sprintf("series %s, first ingest held at its lock operation %d (%s) while a second ingest for the same series ran; after a block rotation", map[bool]string{true: "new in the block", false: "already in the block"}[j.NewSeries], j.PauseAt, where)
+	for ts := range want {
+		switch got[ts] {
+		case 1:
+		case 0:
+			fs.Add("C08/two-ingests/accepted-datapoint-lost/"+site, ctx+fmt.Sprintf(": the accepted datapoint at +%d is not returned (returned timestamps %v)", ts-MT0, got))
+		default:
+			fs.Add("C08/two-ingests/datapoint-duplicated/"+site, ctx+fmt.Sprintf(": the datapoint at +%d is returned %d times", ts-MT0, got[ts]))
+		}
+	}
+	return fs.Result(), nil
+}
+
+func c08TwoIngests(rep *kernel.Report, budget *kernel.Budget) {
+	pool := logPool()
+	pool.RecycleEvery = 100
+	points := map[bool]int64{}
+	dw, err := pool.BootWorker()
+	if err != nil {
+		rep.HarnessError(err.Error())
+		return
+	}
+	for _, nw := range []bool{true, false} {
+		name := fmt.Sprintf("c08vd%d", atomic.AddInt64(&c08VSeq, 1))
+		if !nw {
+			_, _, _ = mPutLight(dw, name, map[string]string{"s": "x"}, MT0, 0.5)
+		}
+		var r schedRes
+		js := fmt.Sprintf(`{"metric":%q,"tags":{"s":"x"},"timestamp":%d,"value":1.5}`, name, MT0+1)
+		if err := dw.Call("schedrun", map[string]interface{}{"x": []schedStep{{Op: "mput", Event: js}}, "y": []schedStep{}, "pauseAt": 0}, &r); err != nil {
+			rep.HarnessError("C08 two-ingests dry run: " + err.Error())
+			dw.Close()
+			return
+		}
+		points[nw] = r.Points
+		if nw {
+			rep.Sample(map[string]interface{}{"lock_operations_of_a_first_datapoint": r.Labels})
+		}
+	}
+	dw.Close()
+	d := &Driver[c08VJob]{Rep: rep, Pool: pool, Budget: budget,
+		Enumerate: func(emit func(c08VJob)) {
+			for _, nw := range []bool{true, false} {
+				for k := int64(1); k <= points[nw]+1; k++ {
+					emit(c08VJob{NewSeries: nw, PauseAt: k})
+				}
+			}
+		},
+		Run:        c08VRun,
+		Key:        func(j *c08VJob) string { return "two-ingests|" + jstr(j) },
+		Nontrivial: func(j *c08VJob) bool { return false },
+	}
+	d.Drive()
+	rep.Set("v_lock_operations_of_a_datapoint", map[string]int64{"new series": points[true], "existing series": points[false]})
 }
